@@ -9,8 +9,9 @@ TRUSTED = []
 ASSUMPTIONS = ["fault-free stream contract (DESIGN 3.1): read(n) returns min(n, remaining) bytes, readline() through the first 0x0A",
                "the input is a concatenation of items as the property states (ghost partition isB/kind/iend; NMEA talker letters pinned "
                "in the contract, not read from the tree)",
-               "ParsesOK(payload, labelmsm) - 'the constructor returns normally' - is an uninterpreted predicate of the payload bytes "
-               "(its meaning is C03/C04); unknown message numbers satisfy it by C15",
+               "ParsesOK(payload, labelmsm) - 'the constructor returns normally' - is an uninterpreted predicate of the payload bytes in "
+               "read()'s own obligations; the decode-path obligations included here (as in C03) show that it is false only where the reference "
+               "layout interpreter fails, i.e. the payload is too short for the fields it announces; unknown message numbers satisfy it by C15",
                "socket-backed streams: by C11 (SocketWrapper refines the stream contract)"]
 ARGUED = ["iteration returns every returnable frame exactly once, in order: each read() returns the FIRST returnable item at or after "
           "its start (NoRet chain) and leaves pos at that item's end, which is the next call's start; (None, None) only when every item "
@@ -32,6 +33,16 @@ def units(tier):
     us += func_units(Mq + ".identity", tier)
     us += func_units(Mq + "._do_attributes", tier, only=lambda inst: inst["identity"].startswith("unknown"))
     us += func_units(Mq + ".__init__", tier)
+    # ... and frames with defined message numbers are returnable whenever their payload is complete for the layout: the decode
+    # walk raises only where the reference interpreter R fails (payload too short), the MSM maps raise nothing
+    us += func_units(Mq + "._set_attribute_single", tier)
+    us += func_units(Mq + "._getsatcellmaps", tier)
+    for q in ("_set_attribute", "_set_attribute_group", "_set_attribute_optional"):
+        us += func_units(f"{Mq}.{q}", tier)
+    us += func_units(Mq + "._do_attributes", tier, only=lambda inst: not inst["identity"].startswith("unknown"))
+    from props.common import lemma_unit
+    from spec import msm
+    us.append(lemma_unit("msm.fold_lemmas", msm.fold_lemmas))
     # socket-backed streams: SocketWrapper refines the stream contract (C11)
     for q in ("_recv", "read", "readline", "__init__"):
         us += func_units(f"pyrtcm.socketwrapper.SocketWrapper.{q}", tier, only=lambda i: i != "chunked")
